@@ -31,6 +31,12 @@ def batches(ctx):
                          slots=(0,), invs=((0, 1), (1, 0)))
     a2 += [rh.drop(1), rh.dom(1, rh.DB, "a*", None, None, None), rh.dom(1, rh.DB, "a", 3, None, None)]
     out.append(("DomB/dtype-exhaustive-depth-%d" % (3 if quick else 4), rh.all_histories(a2, 3 if quick else 4), 3, [rh.DB, rh.D]))
+    # classes whose default lengths lie on the other side of their cutoff (DomC: cutoff 20 with long = 15; DomD: short = 10
+    # with cutoff 8): dtype-only requests receive the class default lengths all the same; lengths at the cut-offs
+    for cls_, nm_ in ((rh.DC, "DomC"), (rh.DD, "DomD")):
+        a3 = rh.dom_alphabet(cls_, names=("a", "a*", None), lengths=(None, 8, 15, 20), dtypes=(None, "short", "long"),
+                             slots=(0,), invs=((0, 1),))
+        out.append((f"{nm_}/dtype-exhaustive-depth-2", rh.all_histories(a3, 2), 3, [cls_, rh.D]))
     # (ii) long random histories over all domain classes, larger alphabets, zero / negative lengths, odd names
     n, ln = (400, 40) if quick else (6000, 100)
     hs = [domain_history(rng, ln) for _ in range(n)]
